@@ -209,6 +209,25 @@ func sdfCatalogue(seed int64, k int) []probeShape {
 			return sdf.RotateUnion2D(p, n, sdf.Rotate2d(c.u(0.2, 1)*sdf.Tau/float64(n))), nil
 		})
 		c.add2("RotateCopy2D", nm(pn), func() (sdf.SDF2, error) { return sdf.RotateCopy2D(p, 1+c.rnd.Intn(8)), nil })
+		c.add2("RotateCopy2D", nm("one-sided-block"), func() (sdf.SDF2, error) {
+			// a block that fills its box and hangs to one side of the axis it sits on: the farthest corner of its box
+			// is an off-diagonal one, (Max.X, Min.Y) or (Min.X, Max.Y); odd and even numbers of copies
+			w, h := c.u(1, 3), c.u(1.5, 4)
+			blk := sdf.Box2D(v2.Vec{X: w, Y: h}, 0)
+			sx, sy := float64(1-2*(i&1)), float64(1-2*((i>>1)&1))
+			ctr := v2.Vec{X: sx * (c.u(2, 6) + w/2), Y: -sy * c.u(0.3, 0.5) * h}
+			return sdf.RotateCopy2D(sdf.Transform2D(blk, sdf.Translate2d(ctr)), 3+c.rnd.Intn(9)), nil
+		})
+		c.add2("ScaleUniform2D", nm("stacked:"+pn), func() (sdf.SDF2, error) {
+			return sdf.ScaleUniform2D(sdf.ScaleUniform2D(p, c.u(0.3, 2.5)), c.u(0.3, 2.5)), nil
+		})
+		c.add2("Offset2D", nm("stacked:"+pn), func() (sdf.SDF2, error) { return sdf.Offset2D(sdf.Offset2D(p, c.u(0, 0.6)), c.u(0, 0.6)), nil })
+		c.add2("Transform2D", nm("rot:stacked:"+pn), func() (sdf.SDF2, error) {
+			m := func() sdf.M33 {
+				return sdf.Translate2d(v2.Vec{X: c.u(-3, 3), Y: c.u(-3, 3)}).Mul(sdf.Rotate2d(c.u(-7, 7)))
+			}
+			return sdf.Transform2D(sdf.Transform2D(p, m()), m()), nil
+		})
 		q, qn := c.placedProfile(i + 3)
 		c.add2("Union2D", nm(pn+"+"+qn), func() (sdf.SDF2, error) { return sdf.Union2D(p, q), nil })
 		c.add2("Difference2D", nm(pn+"-"+qn), func() (sdf.SDF2, error) { return sdf.Difference2D(p, q), nil })
@@ -247,6 +266,28 @@ func sdfCatalogue(seed int64, k int) []probeShape {
 		})
 		c.add3("ScaleUniform3D", nm(sn), func() (sdf.SDF3, error) { return sdf.ScaleUniform3D(s, c.u(0.3, 2.5)), nil })
 		c.add3("Offset3D", nm(sn), func() (sdf.SDF3, error) { return sdf.Offset3D(s, c.u(-0.1, 1)), nil })
+		// the same wrapper directly on its own result (a constructor that folds a nested node into one must
+		// combine every parameter of the two)
+		c.add3("ScaleUniform3D", nm("stacked:"+sn), func() (sdf.SDF3, error) {
+			return sdf.ScaleUniform3D(sdf.ScaleUniform3D(s, c.u(0.3, 2.5)), c.u(0.3, 2.5)), nil
+		})
+		c.add3("Offset3D", nm("stacked:"+sn), func() (sdf.SDF3, error) { return sdf.Offset3D(sdf.Offset3D(s, c.u(0, 0.6)), c.u(0, 0.6)), nil })
+		c.add3("Transform3D", nm("rot:stacked:"+sn), func() (sdf.SDF3, error) {
+			m := func() sdf.M44 {
+				return sdf.Translate3d(v3.Vec{X: c.u(-3, 3), Y: c.u(-3, 3), Z: c.u(-3, 3)}).Mul(
+					sdf.Rotate3d(v3.Vec{X: c.u(-1, 1), Y: c.u(-1, 1), Z: c.u(-1, 1)}, c.u(-7, 7)))
+			}
+			return sdf.Transform3D(sdf.Transform3D(s, m()), m()), nil
+		})
+		c.add3("Elongate3D", nm("stacked:"+sn), func() (sdf.SDF3, error) {
+			return sdf.Elongate3D(sdf.Elongate3D(s, v3.Vec{X: c.u(0, 2)}), v3.Vec{Y: c.u(0, 2), Z: c.u(0, 1)}), nil
+		})
+		c.add3("Array3D", nm("stacked:"+sn), func() (sdf.SDF3, error) {
+			return sdf.Array3D(sdf.Array3D(s, v3i.Vec{X: 2, Y: 1, Z: 1}, v3.Vec{X: c.u(2, 5)}), v3i.Vec{X: 1, Y: 2, Z: 2}, v3.Vec{Y: c.u(-5, 5), Z: c.u(2, 4)}), nil
+		})
+		c.add3("RotateUnion3D", nm("stacked:"+sn), func() (sdf.SDF3, error) {
+			return sdf.RotateUnion3D(sdf.RotateUnion3D(s, 2, sdf.RotateZ(c.u(0.3, 1.2))), 3, sdf.RotateX(c.u(0.5, 2))), nil
+		})
 		c.add3("Shell3D", nm(sn), func() (sdf.SDF3, error) { return sdf.Shell3D(s, c.u(0.05, 0.8)) })
 		c.add3("Cut3D", nm(sn), func() (sdf.SDF3, error) {
 			return sdf.Cut3D(s, s.BoundingBox().Center(), v3.Vec{X: c.u(-1, 1), Y: c.u(-1, 1), Z: c.u(-1, 1)}), nil
@@ -275,6 +316,13 @@ func sdfCatalogue(seed int64, k int) []probeShape {
 			return sdf.RotateUnion3D(s, n, sdf.RotateZ(c.u(0.2, 1)*sdf.Tau/float64(n))), nil
 		})
 		c.add3("RotateCopy3D", nm(sn), func() (sdf.SDF3, error) { return sdf.RotateCopy3D(s, 1+c.rnd.Intn(8)), nil })
+		c.add3("RotateCopy3D", nm("one-sided-block"), func() (sdf.SDF3, error) {
+			w, h := c.u(1, 3), c.u(1.5, 4)
+			blk, _ := sdf.Box3D(v3.Vec{X: w, Y: h, Z: c.u(0.5, 2)}, 0)
+			sx, sy := float64(1-2*(i&1)), float64(1-2*((i>>1)&1))
+			ctr := v3.Vec{X: sx * (c.u(2, 6) + w/2), Y: -sy * c.u(0.3, 0.5) * h, Z: c.u(-2, 2)}
+			return sdf.RotateCopy3D(sdf.Transform3D(blk, sdf.Translate3d(ctr)), 3+c.rnd.Intn(9)), nil
+		})
 		c.add3("Union3D", nm(sn+"+"+tn), func() (sdf.SDF3, error) { return sdf.Union3D(s, t), nil })
 		c.add3("Difference3D", nm(sn+"-"+tn), func() (sdf.SDF3, error) { return sdf.Difference3D(s, t), nil })
 		c.add3("Intersect3D", nm(sn+"&"+tn), func() (sdf.SDF3, error) { return sdf.Intersect3D(s, t), nil })
